@@ -264,7 +264,10 @@ def run(ctx, ck) -> None:
     # ------------------------------------------------------------------ Z6
     am = cls.own.get('as_matrix')
     ok, why = c04.s_toeplitz(world, table, cls, am) if isinstance(am, ast.FunctionDef) else (False, 'as_matrix override vanished')
-    ck.expect('Z6', ok, am or cls.node, why, f'as_matrix: {why}', instance='shared dense builder')
+    if ok is None:
+        ck.incomplete('Z6', am or cls.node, f'as_matrix: {why}', instance='shared dense builder')
+    else:
+        ck.expect('Z6', ok, am or cls.node, why, f'as_matrix: {why}', instance='shared dense builder')
 
 
 def _shared_memos(ctx, ck, cls) -> None:
